@@ -99,6 +99,19 @@ func batchOps(name string, parent kv.Contents) [][2][]byte {
 			return [][2][]byte{{k, toggle(parent[string(k)])}}
 		}
 		return [][2][]byte{{dbKeys[2], []byte("b")}}
+	case "modall":
+		// same keys, every value changed: the same tree shape as the parent with different leaves
+		var ops [][2][]byte
+		for _, k := range present {
+			ops = append(ops, [2][]byte{k, []byte("c")})
+		}
+		return ops
+	case "modall2":
+		var ops [][2][]byte
+		for _, k := range present {
+			ops = append(ops, [2][]byte{k, []byte("d")})
+		}
+		return ops
 	case "clear":
 		var ops [][2][]byte
 		for _, k := range present {
